@@ -229,8 +229,10 @@ pub fn fixed_random_state() -> std::collections::hash_map::RandomState {
 
 /// Size of the mapping the real `create_mmap` makes for any file <= 64 KiB.
 const MAP_SIZE: usize = 64 * 1024;
-/// Size of the modelled file: header (64) + 4 elements of u32.
-const FILE_LEN: usize = 64 + 4 * 4;
+/// Size of the real header: magic u64, version u32, element_size u32, length u64, capacity u64, reserved [u64; 6].
+const HDR: usize = 80;
+/// Size of the modelled file: header (80) + 4 elements of u32.
+const FILE_LEN: usize = HDR + 4 * 4;
 
 static mut C19_FILE: [u8; FILE_LEN] = [0; FILE_LEN];
 
@@ -284,12 +286,12 @@ fn mmapvec_config() -> MmapVecConfig {
     }
 }
 
-/// Symbolic 64-byte header + concrete zero data, published to the stub (Kani) or written to a
+/// Symbolic 80-byte header + concrete zero data, published to the stub (Kani) or written to a
 /// real temporary file (native replay). Returns the path to open.
 fn mmapvec_file(tag: &str) -> std::path::PathBuf {
-    let hdr: [u8; 64] = vany();
+    let hdr: [u8; HDR] = vany();
     let mut file = [0u8; FILE_LEN];
-    file[..64].copy_from_slice(&hdr);
+    file[..HDR].copy_from_slice(&hdr);
     unsafe { C19_FILE = file; }
     #[cfg(kani)]
     { let _ = tag; std::path::PathBuf::from("zv_c19.bin") }
@@ -305,7 +307,7 @@ zv_harness! {
     name: c19_mmapvec_open_len_in_file,
     prop: "C19",
     tier: quick,
-    unwind: 70,
+    unwind: 100,
     stubs: [
         alloc::fmt::format => crate::common::stubs::fmt_format,
         zipora::memory::mmap_vec::MmapVec::create_mmap => crate::c19_files::stub_create_mmap,
@@ -313,8 +315,8 @@ zv_harness! {
         zipora::memory::mmap_vec::MmapVec::backing_file_len => crate::c19_files::stub_backing_file_len
     ],
     targets: "MmapVec::<u32>::open (update_pointers, validate_header / MmapVecHeader::validate), len, capacity",
-    bounds: "file of 80 bytes (64-byte header + room for 4 u32): all 64 header bytes symbolic (magic, version, element size, length, capacity, reserved); mapping = 64 KiB zero-filled buffer with the file at its start, as the real create_mmap builds it",
-    oracle: "open is Err, or Ok with len() <= capacity() and 64 + 4*len() <= 80: every element the header vouches for is inside the file",
+    bounds: "file of 96 bytes (80-byte header + room for 4 u32): all 80 header bytes symbolic (magic, version, element size, length, capacity, reserved); mapping = 64 KiB zero-filled buffer with the file at its start, as the real create_mmap builds it",
+    oracle: "open is Err, or Ok with len() <= capacity() and 80 + 4*len() <= 96: every element the header vouches for is inside the file",
     body: {
         let p = mmapvec_file("len");
         let r = MmapVec::<u32>::open(&p, mmapvec_config());
@@ -324,7 +326,7 @@ zv_harness! {
             Ok(v) => {
                 let len = v.len();
                 assert!(len <= v.capacity(), "length exceeds capacity after open");
-                assert!(len <= (FILE_LEN - 64) / 4, "open accepted a header whose length reaches past the end of the file");
+                assert!(len <= (FILE_LEN - HDR) / 4, "open accepted a header whose length reaches past the end of the file");
                 zcover!(len == 4, "a full valid file accepted");
             }
             Err(_) => {}
@@ -338,7 +340,7 @@ zv_harness! {
     name: c19_mmapvec_open_len_in_mapping,
     prop: "C19",
     tier: quick,
-    unwind: 70,
+    unwind: 100,
     stubs: [
         alloc::fmt::format => crate::common::stubs::fmt_format,
         zipora::memory::mmap_vec::MmapVec::create_mmap => crate::c19_files::stub_create_mmap,
@@ -346,8 +348,8 @@ zv_harness! {
         zipora::memory::mmap_vec::MmapVec::backing_file_len => crate::c19_files::stub_backing_file_len
     ],
     targets: "MmapVec::<u32>::open, len (as_slice()/get(i) dereference data + i for i < len without any further check)",
-    bounds: "same file model as c19_mmapvec_open_len_in_file (80-byte file, all 64 header bytes symbolic, 64 KiB mapping)",
-    oracle: "open is Err, or Ok with 64 + 4*len() <= 65536: get(len()-1) and as_slice() stay inside the mapping (otherwise they read unmapped memory: SIGSEGV)",
+    bounds: "same file model as c19_mmapvec_open_len_in_file (96-byte file, all 80 header bytes symbolic, 64 KiB mapping)",
+    oracle: "open is Err, or Ok with 80 + 4*len() <= 65536: get(len()-1) and as_slice() stay inside the mapping (otherwise they read unmapped memory: SIGSEGV)",
     body: {
         let p = mmapvec_file("map");
         let r = MmapVec::<u32>::open(&p, mmapvec_config());
@@ -356,7 +358,7 @@ zv_harness! {
         match &r {
             Ok(v) => {
                 let len = v.len();
-                assert!(64usize.checked_add(len.saturating_mul(4)).map_or(false, |e| e <= MAP_SIZE),
+                assert!(HDR.checked_add(len.saturating_mul(4)).map_or(false, |e| e <= MAP_SIZE),
                     "open accepted a header whose length reaches past the end of the mapping: get(len-1) reads unmapped memory");
                 zcover!(len == 4, "a full valid file accepted");
             }
@@ -371,8 +373,8 @@ const MMAP_VEC_MAGIC: u64 = 0x4D4D41505F564543;
 
 /// Header bytes as the real `MmapVecHeader` lays them out (repr(C): magic u64, version u32,
 /// element_size u32, length u64, capacity u64, reserved [u64; 6]).
-fn header_bytes(magic: u64, version: u32, elem: u32, length: u64, capacity: u64) -> [u8; 64] {
-    let mut h = [0u8; 64];
+fn header_bytes(magic: u64, version: u32, elem: u32, length: u64, capacity: u64) -> [u8; HDR] {
+    let mut h = [0u8; HDR];
     h[0..8].copy_from_slice(&magic.to_le_bytes());
     h[8..12].copy_from_slice(&version.to_le_bytes());
     h[12..16].copy_from_slice(&elem.to_le_bytes());
@@ -413,9 +415,9 @@ zv_harness! {
         assume(n <= 4);
         let data: [u32; 4] = vany();
         let mut file = [0u8; FILE_LEN];
-        file[..64].copy_from_slice(&header_bytes(MMAP_VEC_MAGIC, 1, 4, n, 4));
+        file[..HDR].copy_from_slice(&header_bytes(MMAP_VEC_MAGIC, 1, 4, n, 4));
         let mut i = 0;
-        while i < 4 { file[64 + 4 * i..68 + 4 * i].copy_from_slice(&data[i].to_le_bytes()); i += 1; }
+        while i < 4 { file[HDR + 4 * i..HDR + 4 + 4 * i].copy_from_slice(&data[i].to_le_bytes()); i += 1; }
         let p = publish_file("ok", file);
         let r = MmapVec::<u32>::open(&p, mmapvec_config());
         #[cfg(not(kani))]
@@ -455,13 +457,13 @@ zv_harness! {
         zipora::memory::mmap_vec::MmapVec::backing_file_len => crate::c19_files::stub_backing_file_len
     ],
     targets: "MmapVec::<u32>::open -> MmapVecHeader::validate (length <= capacity is the only size check)",
-    bounds: "80-byte file (room for 4 u32) whose header has valid magic/version/element size and symbolic length and capacity (any u64): a file cut short after the header was written, or a capacity persisted before the file was extended",
-    oracle: "open is Err, or Ok with 64 + 4*capacity() <= 80 and len() <= capacity(): the header never vouches for more than the file holds",
+    bounds: "96-byte file (room for 4 u32) whose header has valid magic/version/element size and symbolic length and capacity (any u64): a file cut short after the header was written, or a capacity persisted before the file was extended",
+    oracle: "open is Err, or Ok with 80 + 4*capacity() <= 96 and len() <= capacity(): the header never vouches for more than the file holds",
     body: {
         let length: u64 = vany();
         let capacity: u64 = vany();
         let mut file = [0u8; FILE_LEN];
-        file[..64].copy_from_slice(&header_bytes(MMAP_VEC_MAGIC, 1, 4, length, capacity));
+        file[..HDR].copy_from_slice(&header_bytes(MMAP_VEC_MAGIC, 1, 4, length, capacity));
         let p = publish_file("cap", file);
         let r = MmapVec::<u32>::open(&p, mmapvec_config());
         #[cfg(not(kani))]
@@ -469,7 +471,7 @@ zv_harness! {
         match &r {
             Ok(v) => {
                 assert!(v.len() <= v.capacity(), "length exceeds capacity after open");
-                assert!(v.capacity() <= (FILE_LEN - 64) / 4, "open accepted a capacity larger than the file");
+                assert!(v.capacity() <= (FILE_LEN - HDR) / 4, "open accepted a capacity larger than the file");
                 zcover!(v.len() == 4, "full valid file accepted");
             }
             Err(_) => {}
@@ -491,14 +493,14 @@ zv_harness! {
         zipora::memory::mmap_vec::MmapVec::backing_file_len => crate::c19_files::stub_backing_file_len
     ],
     targets: "MmapVec::<u32>::open -> MmapVecHeader::validate (magic, version, element size)",
-    bounds: "80-byte file with symbolic magic, version and element size (any values), length 2, capacity 4",
+    bounds: "96-byte file with symbolic magic, version and element size (any values), length 2, capacity 4",
     oracle: "open is Ok exactly when magic == MMAP_VEC, version == 1 and element size == 4 (a file of another element type or format is refused)",
     body: {
         let magic: u64 = vany();
         let version: u32 = vany();
         let elem: u32 = vany();
         let mut file = [0u8; FILE_LEN];
-        file[..64].copy_from_slice(&header_bytes(magic, version, elem, 2, 4));
+        file[..HDR].copy_from_slice(&header_bytes(magic, version, elem, 2, 4));
         let p = publish_file("hdr", file);
         let r = MmapVec::<u32>::open(&p, mmapvec_config());
         #[cfg(not(kani))]
